@@ -38,6 +38,16 @@ theorem rebase_ids (cfg : Cfg) (ts : List Txn) (rev app : List Blk) (out : List 
     rfl
   exact ⟨this, this ▸ List.filter_sublist⟩
 
+/-- over a path of several blocks: a member comes back iff NO block of the apply leg confirms it —
+whichever block confirms which member, in whatever order relative to the set's order; the survivors
+keep their relative order (`rebase_ids`) -/
+theorem rebase_removes_exactly (cfg : Cfg) (ts : List Txn) (rev app : List Blk) (out : List Txn)
+    (h : rebase cfg ts (some (rev, app)) = some out) (id : Nat) :
+    id ∈ out.map (·.id) ↔ id ∈ ts.map (·.id) ∧ ∀ b ∈ app, id ∉ b.v2txns.map (·.id) := by
+  rw [(rebase_ids cfg ts rev app out h).1]
+  simp only [List.mem_filter, Bool.not_eq_true', List.contains_eq_mem, decide_eq_false_iff_not, confirmedIds,
+    List.mem_flatMap, not_exists, not_and]
+
 /-- no transaction of the set is invented, dropped without being confirmed, or altered in anything
 but the leaf indices of its inputs -/
 theorem rebase_members (cfg : Cfg) (ts : List Txn) (rev app : List Blk) (out : List Txn)
@@ -216,6 +226,8 @@ example :
     rebase cfg0 [tP, tC, tQ] (some ([], [bOther])) = some [tP, tC, tQ] ∧
     (rebase cfg0 [tP, tC, tQ] (some ([], [bOther, bConf]))).map (·.map fun t => (t.id, t.inputs.map (·.leaf)))
       = some [(2, [some 8]), (3, [some 4])] ∧
+    (rebase cfg0 [tQ, tP, tC] (some ([], [bConf, ⟨7, 12, 14, [], [tQ], [(11, 4)], [(40, 12), (54, 13)]⟩]))).map (·.map (·.id))
+      = some [2] ∧
     rebase cfg0 [tP] (some ([], [bOther, bOther, bOther, bOther])) = none ∧
     (rebase cfg0 [tP] (some ([], [bOther, bOther, bOther]))).isSome = true ∧
     rebase cfg0 [{ tP with inputs := [⟨10, some 3, true⟩] }] (some ([], [bOther])) = none ∧
